@@ -13,3 +13,5 @@ import BB
 #print axioms BB.Props.C07.itype_accepts_lo
 #print axioms BB.Props.C07.stype_accepts_lo
 #print axioms BB.Props.C07.pair_rebuilds
+#print axioms BB.Lemmas.walk_layout
+#print axioms BB.Props.C03.assemble_layout
